@@ -64,4 +64,17 @@ def _():
                     "detail": f"ast.{op}: table gives {got}, CPython's slots for this operator are {exp}" if got != exp else f"ast.{op} -> {exp}"})
     for op in sorted(set(want) - seen):
         out.append({"name": f"C19.operator_table:{op}", "ok": False, "detail": f"ast.{op} has no 4-tuple row in the table"})
+    # the unary table read by visit_UnaryOp
+    unode = mod.assigns.get("UNARY_OPERATION_TO_DESCRIPTION_AND_METHOD")
+    uwant = {"UAdd": "__pos__", "USub": "__neg__", "Invert": "__invert__"}
+    if not isinstance(unode, _ast.Dict):
+        out.append({"name": "C19.operator_table:unary_shape", "ok": False, "detail": "UNARY_OPERATION_TO_DESCRIPTION_AND_METHOD is no longer a dict display: the table cannot be read"})
+    else:
+        ugot = {}
+        for k, v in zip(unode.keys, unode.values):
+            if k is not None and isinstance(v, _ast.Tuple) and len(v.elts) == 2 and isinstance(v.elts[1], _ast.Constant):
+                ugot[_ast.unparse(k).replace("ast.", "")] = v.elts[1].value
+        for op, meth in uwant.items():
+            out.append({"name": f"C19.operator_table:{op}", "ok": ugot.get(op) == meth,
+                        "detail": f"ast.{op}: table gives {ugot.get(op)!r}, CPython's slot for this operator is {meth!r}"})
     return out
